@@ -20,11 +20,14 @@ def main():
         if a.returncode != 0:
             print(f"{i}: STALE (patch no longer applies: {a.stdout.strip()[:120]})"); continue
         try:
+            caught = False
             for p in props:
                 r = sh(f"./check {p} --tier quick", cwd=V)
                 nv = sum(1 for l in r.stdout.splitlines() if l.startswith("VIOLATION"))
                 print(f"{i}: {p} exit={r.returncode} violations={nv}")
-                if r.returncode != 1: bad += 1
+                caught = caught or r.returncode == 1
+            # a change is detected when at least one of the checks it was evaluated against reports it
+            if not caught: bad += 1; print(f"{i}: NOT DETECTED")
         finally:
             sh("git -C /repo checkout -- .")
     return 1 if bad else 0
